@@ -394,7 +394,7 @@ class StorageRunner:
                 t, tid = int(tk[1]), int(tk[2])
                 if t in self.pending:
                     th, res = self.pending.pop(t)
-                    th.join(5)
+                    th.join(1.5)
                     if th.is_alive():
                         self.pending[t] = (th, res)
                         r = 'blocked'
@@ -405,7 +405,7 @@ class StorageRunner:
                             self.events.append(('acquired', t))
                 else:
                     th, res = self._begin_thread(t, tid)
-                    th.join(self.probe if self.begun - {t} else 5)
+                    th.join(self.probe if self.begun - {t} else 1.5)
                     if th.is_alive():
                         self.pending[t] = (th, res)
                         r = 'blocked'
@@ -457,6 +457,25 @@ class StorageRunner:
             elif o == 'hist':
                 h = st.history(p64(int(tk[1])), 1000)
                 r = '[' + ','.join(str(u64(d['tid'])) for d in h) + ']'
+            elif o == 'undo':
+                # undo <tid> <oid> <ctid> <undone> <pre> <cur>: a whole undo transaction of `undone`
+                import base64
+                from ZODB.Connection import TransactionMetaData
+                from ZODB.utils import load_current
+                txn = TransactionMetaData()
+                del K.CALLS[:]
+                st.tpc_begin(txn, p64(int(tk[1])))
+                try:
+                    st.undo(base64.encodebytes(p64(int(tk[4]))).rstrip(), txn)
+                    st.tpc_vote(txn)
+                    st.tpc_finish(txn)
+                    calls = take_calls()
+                    r = 'ok ' + decode_record(load_current(st, p64(int(tk[2])))[0])
+                except BaseException as e:  # noqa: B902
+                    calls = take_calls()
+                    st.tpc_abort(txn)
+                    r = errname(e)
+                r += (' ' + ' '.join(calls)) if calls else ''
             elif o == 'lock':
                 r = '?'
             else:
@@ -478,9 +497,9 @@ class StorageRunner:
                 self.storage.tpc_abort(self.txn(t))
             except Exception:
                 pass
-        for _ in range(4):
+        for _ in range(2):
             for t, (th, res) in list(self.pending.items()):
-                th.join(2)
+                th.join(0.3)
                 if not th.is_alive():
                     del self.pending[t]
                     try:
